@@ -24,8 +24,8 @@ type Variant struct {
 	SetThr   bool          `json:"set_thr"` // pass annotate.Threshold(Thr) (otherwise Thr must be the 30 min default)
 	IgnInc   bool          `json:"ign_inc"`
 	IgnMiss  bool          `json:"ign_miss"`
-	Withhold int           `json:"withhold"` // child whose history is withheld from the datasource, -1 none
-	Filter   int           `json:"filter"`   // -1: no ChildFilter; -2: filter rejecting every child; x>=0: filter accepting only child x
+	Withhold int           `json:"withhold"`  // child whose history is withheld from the datasource, -1 none
+	Filter   int           `json:"filter"`    // -1: no ChildFilter; -2: filter rejecting every child; x>=0: filter accepting only child x
 	KeepRefs bool          `json:"keep_refs"` // deleted parent versions keep the previous child list (unannotated)
 	Reversed bool          `json:"reversed"`  // the datasource returns every history newest version first
 	When     int           `json:"-"`         // at which states the search evaluates the variant (main.go)
@@ -145,13 +145,13 @@ func (p *parents) travel(i int, t time.Time, buf []ann) ([]ann, error) {
 
 // slot is the ground truth for one child reference (parent version i, index j).
 type slot struct {
-	child   osm.FeatureID
-	cx      int  // child index in the family
-	active  bool // the library has to annotate it (unannotated on input, or accepted by the filter)
-	missing bool // the child's history is withheld
-	pre     ann  // annotation on input
-	cur     *histsim.Version // version current once the parent version's upload was committed (nil: none yet)
-	lo, mid, hi int // later versions: vers[lo:mid] mandatory span, vers[mid:hi] inside the grouping window (both may contain deleted versions)
+	child       osm.FeatureID
+	cx          int              // child index in the family
+	active      bool             // the library has to annotate it (unannotated on input, or accepted by the filter)
+	missing     bool             // the child's history is withheld
+	pre         ann              // annotation on input
+	cur         *histsim.Version // version current once the parent version's upload was committed (nil: none yet)
+	lo, mid, hi int              // later versions: vers[lo:mid] mandatory span, vers[mid:hi] inside the grouping window (both may contain deleted versions)
 }
 
 // inconsistency kinds
@@ -179,6 +179,17 @@ type truth struct {
 	nontriv bool
 
 	arena []slot // backing store of slots, reused between evaluations
+	stats *stats
+}
+
+// stats counts what the oracle actually compared (written to the evidence).
+type stats struct {
+	refs, updates, travels, travelRefs          int64 // clause (a), (b), (c) comparisons
+	deletedParents                              int64 // clause (d) parent versions checked
+	errNoHistory, errNoVisible, errDeleted      int64 // clause (e): documented errors confirmed against the ground truth
+	unannotatedMissing, unannotatedInconsistent int64 // clause (e): references confirmed left unannotated under an ignore option
+	filteredUntouched                           int64 // ChildFilter: pre-annotated references confirmed untouched
+	windowUpdates                               int64 // updates accepted inside the pre-commit grouping window
 }
 
 func (t *truth) hasDefinite() bool {
@@ -218,7 +229,10 @@ func computeTruth(t *truth, sp *Space, w *histsim.World, v Variant, preAnnotated
 	if t == nil {
 		t = &truth{}
 	}
-	*t = truth{sp: sp, w: w, v: v, pv: w.Versions(f.Parent), slots: t.slots[:0], incs: t.incs[:0], arena: t.arena[:0]}
+	*t = truth{sp: sp, w: w, v: v, pv: w.Versions(f.Parent), slots: t.slots[:0], incs: t.incs[:0], arena: t.arena[:0], stats: t.stats}
+	if t.stats == nil {
+		t.stats = &stats{}
+	}
 	var seenCur [8]int
 	total := 0
 	for i := range t.pv {
@@ -329,6 +343,7 @@ func (t *truth) classifyError(err error) (ok bool, why string) {
 	case *annotate.NoHistoryError:
 		for _, in := range t.incs {
 			if in.kind == incNoHistory && in.child == e.ID {
+				t.stats.errNoHistory++
 				return true, ""
 			}
 		}
@@ -336,6 +351,7 @@ func (t *truth) classifyError(err error) (ok bool, why string) {
 	case *annotate.NoVisibleChildError:
 		for _, in := range t.incs {
 			if in.kind == incNoVisible && in.child == e.ID && in.at.Equal(e.Timestamp) {
+				t.stats.errNoVisible++
 				return true, ""
 			}
 		}
@@ -345,6 +361,7 @@ func (t *truth) classifyError(err error) (ok bool, why string) {
 	if strings.HasSuffix(msg, "child deleted between parent versions") {
 		for _, in := range t.incs {
 			if in.kind == incDeletedBetween && strings.Contains(msg, ": "+in.child.String()+": ") {
+				t.stats.errDeleted++
 				return true, ""
 			}
 		}
@@ -411,6 +428,7 @@ func (t *truth) compare(p *parents, times []time.Time, out []finding) []finding 
 		}
 		ups := p.updates(i)
 		if !pvi.Visible {
+			t.stats.deletedParents++
 			// (d) deleted parent versions receive no annotations
 			for j := range slots {
 				if got := p.get(i, j); got != slots[j].pre {
@@ -429,18 +447,22 @@ func (t *truth) compare(p *parents, times []time.Time, out []finding) []finding 
 			node := s.child.Type() == osm.TypeNode
 			switch {
 			case !s.active:
+				t.stats.filteredUntouched++
 				if got != s.pre {
 					add("childfilter", "filtered-child-touched", fmt.Sprintf("parent v%d ref %d (%v) was annotated on input and rejected by the filter, now %+v", pvi.Version, j, s.child, got))
 				}
 			case s.missing:
+				t.stats.unannotatedMissing++
 				if got != s.pre {
 					add("missing-child", "annotated", fmt.Sprintf("parent v%d ref %d (%v): history withheld but annotated %+v", pvi.Version, j, s.child, got))
 				}
 			case s.cur == nil || !s.cur.Visible:
+				t.stats.unannotatedInconsistent++
 				if got != s.pre {
 					add("inconsistent-child", "annotated/"+t.curShape(i, s), fmt.Sprintf("parent v%d ref %d (%v): no visible version at its commit but annotated %+v", pvi.Version, j, s.child, got))
 				}
 			default:
+				t.stats.refs++
 				if want := annOf(s.cur); !annEqual(got, want, node) {
 					shape := "wrong-version"
 					if got.Ver == want.Ver {
@@ -501,6 +523,10 @@ func (t *truth) compare(p *parents, times []time.Time, out []finding) []finding 
 					break
 				}
 				want := &vers[k]
+				t.stats.updates++
+				if k >= s.mid {
+					t.stats.windowUpdates++
+				}
 				if u.Version != want.Version {
 					shape := "wrong-version"
 					if u.Version > want.Version {
@@ -549,6 +575,7 @@ func (t *truth) compare(p *parents, times []time.Time, out []finding) []finding 
 				continue
 			}
 			var err error
+			t.stats.travels++
 			buf, err = p.travel(i, q, buf)
 			if err != nil {
 				add("timetravel", "apply-error", fmt.Sprintf("parent v%d ApplyUpdatesUpTo: %v", pvi.Version, err))
@@ -564,6 +591,7 @@ func (t *truth) compare(p *parents, times []time.Time, out []finding) []finding 
 				if !ok || !cur.Visible {
 					continue // nothing is promised about a child that is not there
 				}
+				t.stats.travelRefs++
 				if got, want := buf[j], annOf(cur); !annEqual(got, want, s.child.Type() == osm.TypeNode) {
 					shape := "stale"
 					if got.Ver > want.Ver {
